@@ -5,6 +5,7 @@ import (
 	"fmt"
 	"os"
 	"path/filepath"
+	"runtime/debug"
 	"sort"
 	"strings"
 
@@ -73,12 +74,15 @@ const (
 	dpLoadFilesFault1  = dpNOps + 2
 	dpLoadParityFault2 = dpNOps + 3
 	dpLoadParityFault3 = dpNOps + 4
+	// PAR2: the first recovery file cut short inside its last packet (a damaged file: a load may refuse it - after having
+	// parsed the packets in front of the cut); "restore first recovery file" undoes it
+	dpTruncVol0 = dpNOps + 5
 )
 
 // dpFaultAlphabet: the operations of the error-path search.
-var dpFaultAlphabet = []int{dpLoadBoth, dpCounts, dpRepair, dpRepairTorn1, dpRepairTorn2, dpLoadFilesFault1, dpLoadParityFault2, dpLoadParityFault3, dpDelA, dpDelB, dpChangeA, dpDelVol0, dpRestoreVol0}
+var dpFaultAlphabet = []int{dpLoadBoth, dpCounts, dpRepair, dpRepairTorn1, dpRepairTorn2, dpLoadFilesFault1, dpLoadParityFault2, dpLoadParityFault3, dpDelA, dpDelB, dpChangeA, dpDelVol0, dpRestoreVol0, dpTruncVol0}
 
-var dpNames = []string{"LoadFileData", "LoadParityData", "Counts", "Repair", "Repair(check)", "delete a", "change a", "delete b", "restore data files", "delete first recovery file", "restore first recovery file", "LoadFileData+LoadParityData", "Repair(1st file write torn)", "Repair(2nd file write torn)", "LoadFileData(1st read fails)", "LoadParityData(2nd read fails)", "LoadParityData(3rd read fails)"}
+var dpNames = []string{"LoadFileData", "LoadParityData", "Counts", "Repair", "Repair(check)", "delete a", "change a", "delete b", "restore data files", "delete first recovery file", "restore first recovery file", "LoadFileData+LoadParityData", "Repair(1st file write torn)", "Repair(2nd file write torn)", "LoadFileData(1st read fails)", "LoadParityData(2nd read fails)", "LoadParityData(3rd read fails)", "cut the first recovery file short"}
 
 func decProtoGen(fmtName string, depth int, disk bool, emit func(*decProtoCase)) {
 	if !disk {
@@ -130,6 +134,9 @@ func decProtoRun(c *decProtoCase, r *core.Rec, wrap func(*decProtoCase) interfac
 var decProtoSeq int
 
 func decProtoOne(c *decProtoCase, seq []int, r *core.Rec, wrap func(*decProtoCase) interface{}) {
+	// no garbage collection within one sequence: whatever a call parks in a pool or cache is still there for the next
+	oldGC := debug.SetGCPercent(-1)
+	defer debug.SetGCPercent(oldGC)
 	root := ""
 	if c.Disk {
 		decProtoSeq++
@@ -218,6 +225,7 @@ func decProtoOne(c *decProtoCase, seq []int, r *core.Rec, wrap func(*decProtoCas
 	// (complete or interrupted), not by any event. Then the weaker, state-independent clause applies to a further
 	// Repair on it: a nil error still means every file is original.
 	ownOnly := false
+	volCut := false // the first recovery file is currently cut short: loads may refuse the directory
 	// pendingRetry: the object's last call was a Repair on fresh tables that failed only because of an injected write
 	// fault while the loss was within capacity; nothing else has happened since
 	pendingRetry := false
@@ -246,7 +254,7 @@ func decProtoOne(c *decProtoCase, seq []int, r *core.Rec, wrap func(*decProtoCas
 		r.AddTransitions(1)
 		fresh := fileView == view(paths) && parityView == view(vols)
 		switch op {
-		case dpDelA, dpChangeA, dpDelB, dpRestoreAll, dpDelVol0, dpRestoreVol0:
+		case dpDelA, dpChangeA, dpDelB, dpRestoreAll, dpDelVol0, dpRestoreVol0, dpTruncVol0:
 			ownOnly = false
 			pendingRetry = false
 		case dpLoadFiles, dpLoadParity, dpLoadFilesFault1, dpLoadParityFault2, dpLoadParityFault3:
@@ -267,8 +275,18 @@ func decProtoOne(c *decProtoCase, seq []int, r *core.Rec, wrap func(*decProtoCas
 			}
 		case dpDelVol0:
 			del(vols[0])
+			volCut = false
 		case dpRestoreVol0:
 			put(vols[0], fs0.Files[vols[0]])
+			volCut = false
+		case dpTruncVol0:
+			if p2 == nil || root != "" {
+				continue
+			}
+			if b := fs0.Files[vols[0]]; len(b) > 40 {
+				put(vols[0], b[:len(b)-17])
+				volCut = true
+			}
 		case dpLoadFiles, dpLoadParity:
 			var lerr error
 			pi := core.Catch(func() {
@@ -287,6 +305,13 @@ func decProtoOne(c *decProtoCase, seq []int, r *core.Rec, wrap func(*decProtoCas
 				// loading is always well-formed use
 				viol("load-panic:"+pi.Frame, "%s panicked: %s", dpNames[op], pi.Value)
 				return
+			}
+			if lerr != nil && volCut && op == dpLoadParity {
+				// a damaged recovery file: refusing is an acceptable answer; the object is not up to date then
+				parityView = "-"
+				r.Count("decproto_loads_refused_on_cut_volume", 1)
+				key += "Lr"
+				continue
 			}
 			if lerr != nil {
 				viol("load-failed:"+errClass(lerr), "%s failed on a directory whose index and recovery files are as Create wrote them: %v", dpNames[op], lerr)
@@ -401,6 +426,11 @@ func decProtoOne(c *decProtoCase, seq []int, r *core.Rec, wrap func(*decProtoCas
 			}
 			if k < failAt {
 				// fewer reads than that: nothing was injected, this was an ordinary load
+				if lerr != nil && volCut && op != dpLoadFilesFault1 {
+					parityView = "-"
+					key += "Lr"
+					continue
+				}
 				if lerr != nil {
 					viol("load-failed:"+errClass(lerr), "%s failed without any fault: %v", dpNames[op], lerr)
 					return
